@@ -200,6 +200,19 @@ pub fn sweep_programs(_thorough: bool) -> Vec<Program> {
                     observe: vec![0],
                 });
             }
+            // lazy expiry (a modification that finds the key expired retires it itself) racing a re-creation
+            for (lname, a, b) in [
+                ("incr|insert", vec![Op::Incr { k: 0, delta: 1, ts: 0, ttl: 0 }], vec![ins(0, 1)]),
+                ("incr|insert_ttl", vec![Op::Incr { k: 0, delta: 1, ts: 0, ttl: 0 }], vec![Op::Insert { k: 0, v: 1, ts: 0, ttl: 1000, bytes: false }]),
+                ("incr|incr", vec![Op::Incr { k: 0, delta: 1, ts: 0, ttl: 0 }], vec![Op::Incr { k: 0, delta: 2, ts: 0, ttl: 0 }]),
+                ("incr|sweep|insert", vec![Op::Incr { k: 0, delta: 1, ts: 0, ttl: 0 }], vec![Op::Sweep, ins(0, 1)]),
+            ] {
+                let mut threads = vec![a, b];
+                if cfg.persistent {
+                    threads[1].push(Op::Flush);
+                }
+                v.push(Program { name: format!("sweep-{tier}:{iname}:lazy:{lname}"), cfg, tables: t.clone(), setup: setup.clone(), threads, observe: vec![0] });
+            }
             // two sweepers and a renewer
             v.push(Program {
                 name: format!("sweep-{tier}:{iname}:sweep|sweep|renew"),
